@@ -325,6 +325,15 @@ func h20Shape(shape int) (parts []h20Part, reject bool) {
 		parts = []h20Part{{"file", "many.txt", content}}
 	case 13: // a label added between two results of one benchmark: two records, the second carries it
 		parts = []h20Part{{"file", "add.txt", []byte("key: k\nBenchmarkS 1 5 ns/op\nnote: x\nBenchmarkS 1 6 ns/op\n")}}
+	case 15: // as 12, but every result is repeated (go test -count=2): the flush in the middle of a record is followed by a result with identical labels
+		n := 36 + vndChoice("results", 6)
+		var content []byte
+		for i := 0; i < n; i++ {
+			content = append(content, "key: v"...)
+			content = append(content, '0'+byte(i/10), '0'+byte(i%10), '\n')
+			content = append(content, "BenchmarkM 1 5 ns/op\nBenchmarkM 1 6 ns/op\n"...)
+		}
+		parts = []h20Part{{"file", "twice.txt", content}}
 	case 14: // a file without a name after a named one
 		parts = []h20Part{file('0', "a.txt"), file('1', ""), file('2', "z.txt")}
 	default:
@@ -537,6 +546,23 @@ func H20Upload() {
 			vndReach("h20:label-queue-flushed")
 		}
 	}
+	if shape == 15 {
+		// each pair of results with identical labels is one record, except that a pair whose
+		// labels were being queued when the label queue was flushed is stored as two (its record
+		// row had been sent already); every record carries the label value of its own lines
+		pairs := strings.Count(wantContent, "\n") / 2
+		vndAssert(len(newRecs) >= pairs && len(newRecs) <= pairs+1, "results_with_identical_labels_are_coalesced")
+		line := 0
+		for _, r := range newRecs {
+			kv, _ := e.st.LabelOf(id, r.ID, "key")
+			pair := line / 2
+			vndAssert(kv == "v"+string([]byte{'0' + byte(pair/10), '0' + byte(pair%10)}), "record_carries_the_file_configuration_in_force")
+			line += strings.Count(r.Content, "BenchmarkM ")
+		}
+		if e.st.MaxArgs >= 900 {
+			vndReach("h20:label-queue-flushed")
+		}
+	}
 	// the file-name label the server adds belongs to the file the record came from: absent
 	// for a file uploaded without a name, also when a named file precedes it
 	for pi, p := range parts {
@@ -559,7 +585,7 @@ func H20Upload() {
 	}
 	// consecutive results with identical labels are one record: per file 1 or 2 records
 	for pi, p := range parts {
-		if p.form != "file" || len(p.content) < 40 || shape == 12 || shape == 13 {
+		if p.form != "file" || len(p.content) < 40 || shape == 12 || shape == 13 || shape == 15 {
 			continue
 		}
 		partID := id + "/" + string([]byte{'0' + byte(pi)})
